@@ -1,3 +1,5 @@
 import TxV.Util.AuditCmd
 import TxV.Props.C08
+import TxV.Props.C08b
 #txv_audit TxV.Props.C08
+#txv_audit TxV.Props.C08b
